@@ -474,6 +474,13 @@ class C34Engine(Engine):
                             fh.write(data[:k])
                     elif f == "flip" and data:
                         k = tape.choose("flip_at", len(data))
+                        if 12 <= k < 16:
+                            # bytes 12-15 of a kastore file are `num_items`; with a high bit set there, kastore's
+                            # kastore_close() loops over billions of non-existent items after the failed load, i.e.
+                            # tskit.load never returns (seen once: VERIF_SEED=13, run 967).  A third-party hang on
+                            # corrupt input is not something C34 speaks about, and it would stall the batch.
+                            k = 16
+                            stats["probe.flip_moved_off_kastore_num_items"] += 1
                         b = bytearray(data)
                         b[k] ^= 1 << tape.choose("bit", 8)
                         with open(path, "wb") as fh:
